@@ -377,9 +377,9 @@ def main():
         "setup_cmd": "./setup.sh",
         "hooks": {
             "guard": "PYTHON_PPTX_VERIF",
-            "enable": "checks import pptx from /repo/src in-process with PYTHON_PPTX_VERIF=1; no source hooks are needed (observation is from outside: public API, saved bytes, lxml trees)",
+            "enable": "checks import pptx from /repo/src in-process with PYTHON_PPTX_VERIF=1 (set by ./check); one source hook: pptx.oxml.xmlchemy._set_verif_insert_hook(fn) makes BaseOxmlElement.insert_element_before report every insertion (parent, child, successors, siblings before) to the C10 harness, which compares each with the Lean model; everything else is observed from outside (public API, saved bytes, lxml trees)",
             "baseline_off_cmd": BASELINE_CMD,
-            "source_commits": [],
+            "source_commits": ["1f6e1fe0d102bdcff7e05ed5308cc439ecbfec85"],
             "add_only": True,
         },
         "engines": [{
